@@ -177,7 +177,8 @@ class C09(E1Prop):
                   "the result), forward-error-bounded binary128 oracle on arbitrary floats; complete enumeration of a small 1-D domain.")
 
     def harnesses(self, tier):
-        return [H("prop_C09", "prop_C09.cpp", shards=8)]
+        # second build in the suite's own configuration (-O2 -DNDEBUG, no sanitizer): the algebra must not depend on assert()
+        return [H("prop_C09", "prop_C09.cpp", shards=8), H("prop_C09_release", "prop_C09.cpp", shards=8, flags=core.REL, link_flags=[])]
 
 
 @prop("C10")
